@@ -142,6 +142,21 @@ impl<T> Tagged<T> {
     }
 }
 
+#[cfg(feature = "circ_verif")]
+impl<T> Tagged<T> {
+    pub(crate) fn verif_word(&self) -> usize {
+        self.ptr as usize
+    }
+
+    pub(crate) fn verif_addr_mask() -> usize {
+        !low_bits::<T>() & !Self::high_bits()
+    }
+
+    pub(crate) fn verif_tag_mask() -> usize {
+        low_bits::<T>()
+    }
+}
+
 /// Returns a bitmask containing the unused least significant bits of an aligned pointer to `T`.
 const fn low_bits<T>() -> usize {
     (1 << align_of::<T>().trailing_zeros()) - 1
